@@ -321,7 +321,7 @@ Section DOp.
       repeat match goal with
              | H : (if ?c then _ else _) = Some _ |- _ => destruct c eqn:?; try discriminate
              end; inversion H; try reflexivity.
-    destruct (Nat.eqb i i0); reflexivity.
+    destruct (Nat.eqb i i0 && Nat.ltb i0 3); reflexivity.
   Qed.
 
   Lemma nofield_sound lg i e e' :
